@@ -247,7 +247,7 @@ def stream_smark(ctx: Ctx, n_pairs: int, texts=None, with_parse=True, with_only=
     pending = list(range(len(cases)))
     unresolved = []
     total_eval = 0
-    for k in (0, 1, 2, 3):
+    for k in (0, 1, 2, 3, 4):
         if not pending:
             break
         terms = [cases[i][1](k) for i in pending]
@@ -273,6 +273,8 @@ def stream_smark(ctx: Ctx, n_pairs: int, texts=None, with_parse=True, with_only=
         pending = [pending[j] for j in sorted(set(bad))]
         if k == 0:
             first_bad = list(pending)
+        if k == 3:
+            ctx.coverage["streams"]["S-mark-compared-up-to-child-order"] = len(pending)
     ctx.count("S-mark", total_eval)
     ctx.coverage["streams"]["S-mark-needed-set-order-search"] = len(first_bad) - len(pending) if cases else 0
     if pending:
